@@ -11,7 +11,10 @@ Record obs_request := {
   or_is_lookup : bool; or_parent : string; or_sel : list sel; or_ids : list string;
   or_reply_data : option json; or_reply_nerrs : nat; or_fault : option fault
 }.
-Record obs_error := { oe_kind : ekind; oe_path : list pe; oe_names_service : bool }.
+(* the request got no usable answer at all (an errors-with-data or errors-with-null-data answer is relayed, not a failure
+   of the service as a whole) *)
+Definition hard_fault (f : fault) : bool := match f with FStatus | FTransport | FTimeout | FTooLarge | FBadJSON => true | _ => false end.
+Record obs_error := { oe_kind : ekind; oe_path : list pe; oe_names_service : bool; oe_service : string (* extensions.serviceUrl *) }.
 Record e2e_case := {
   ec_gen : generation; ec_fschema : option schema;
   ec_services : list (string * server); ec_mono : server; ec_data : list entity;
@@ -392,6 +395,12 @@ Definition check_e2e_case (c : e2e_case) : list (string * bool) :=
     ("prop.c05.named", forallb (fun e => match oe_kind e with
                                           | ETimeout | EOther | EDownstream => oe_names_service e
                                           | _ => true end) (obs_errors c));
+    (* every service one of whose requests failed outright is named by an error of its own (two services failing alike are
+       two errors) *)
+    ("prop.c05.every_failing_service_named",
+       forallb (fun r => match or_fault r with
+                         | Some f => if hard_fault f then existsb (fun e => String.eqb (oe_service e) (or_url r)) (obs_errors c) else true
+                         | None => true end) (obs_requests c));
     ("prop.c03.response_confined", match ec_perm c, obs_data c with
         | Some _, Some (JObj kvs) => valid_obj (ec_fuel c) S (ec_vars c) (root_of c) (fst (spec_filter_op (ec_perm c) (root_of c) client_ss0)) (JObj kvs)
         | _, _ => true end);
@@ -426,6 +435,11 @@ Definition check_e2e_case (c : e2e_case) : list (string * bool) :=
     ("prop.c15.directives_not_forwarded", forallb (fun r => negb (existsb has_directive (or_doc r))) (obs_requests c));
     ("prop.c15.vars_exact", forallb (fun r => seteq_str (or_varnames r) (dedupe_str (flat_map sel_vars (or_doc r))) &&
                                               seteq_str (or_declared r) (or_varnames r)) (obs_requests c));
+    (* a document that does not even lex (the Go-escape finding) cannot be judged here *)
+    ("prop.c14.vars_exact", forallb (fun r => match or_doc r with
+                                              | [] => true
+                                              | _ => seteq_str (or_varnames r) (dedupe_str (flat_map sel_vars (or_doc r))) &&
+                                                     seteq_str (or_declared r) (or_varnames r) end) (obs_requests c));
     (* C14: echo resolvers return the arguments they received; the client's values must come back (reference executor) *)
     ("prop.c14.values_arrive", if ec_conforming c && nofault && match ec_perm c with None => true | Some _ => false end then
         let '(j, es) := exec_op (ec_mono c) (ec_data c) (ec_vars c) (ec_fuel c) (root_of c) (o_sel (ec_op c)) in
